@@ -1,5 +1,168 @@
-(* C18arr/Properties.v - placeholder while the model is validated against the code *)
+(* C18arr/Properties.v - the property theorems of unit C18arr (con::arrayset, the indexed
+   set behind StringDictionary), and nothing else.  Every theorem is closed by
+   [exact <lemma>] and followed by Print Assumptions. *)
 From Coq Require Import NArith List Bool.
-From Morfuse Require Import Base.Arr C18arr.Model C18arr.Spec.
+From Morfuse Require Import Base.Arr C18arr.Model C18arr.Spec C18arr.Proofs.
 Import ListNotations.
 Local Open Scope N_scope.
+
+(* The full statement of the property for this container,
+     forall hash u ops, run hash u ops = spec_run u ops,
+   is FALSE of the faithful model and of the real code because of remove():
+   see C18arr_remove_refuted and the witnesses below.  Proved instead:
+
+   For EVERY hash function, every universe size u and EVERY sequence of the operations
+   addKeyIndex k, findKeyIndex k, operator[] i, resize n, shrink, clear, size (the alphabet
+   StringDictionary uses), the model of the chained hash table with its reverse index table,
+   the inline defaultEntry slot that table and reverse table alias while tableLength = 1,
+   growth through set_primes and the in-place re-linking of resize shows after every operation
+   exactly what a list of keys shows: the operation's result, size(), and for every key
+   0..u-1 its id and the key stored under that id.  In particular ids are the 1-based
+   insertion positions, lookups find precisely the keys present, growth, resize(n), shrink
+   and the reverse-table copy preserve every id, clear empties the set, and the model runs
+   into undefined behaviour ([OUndef]: null/stale/out-of-table dereference, division by
+   zero after resize(0), reverseTable written behind its block) exactly when the
+   specification's precondition is violated (operator[] on an id that is not live;
+   resize(n) with n = 0, n < size() or n > 89834777; interning a new key into a set that
+   already holds 89834777 keys). *)
+Theorem C18arr_indexed_set_refines_list_without_remove :
+  forall (hash : N -> N) (u : nat) (ops : list op),
+    (forall k, ~ In (ORemove k) ops) ->
+    run hash u ops = spec_run u ops.
+Proof. exact run_refines_spec. Qed.
+Print Assumptions C18arr_indexed_set_refines_list_without_remove.
+
+(* The chain walks of the model (find, insert, rehash, clear) always terminate within their
+   fuel: no history without remove() makes a chain cyclic. *)
+Theorem C18arr_chain_walks_terminate :
+  forall (hash : N -> N) (u : nat) (ops : list op),
+    (forall k, ~ In (ORemove k) ops) ->
+    ~ In OHang (run hash u ops).
+Proof. exact run_never_hangs. Qed.
+Print Assumptions C18arr_chain_walks_terminate.
+
+(* With remove() the refinement does not hold (witness: hash = k mod 2, add 0; remove 0). *)
+Theorem C18arr_remove_refuted :
+  ~ (forall (hash : N -> N) (u : nat) (ops : list op), run hash u ops = spec_run u ops).
+Proof. exact remove_refuted. Qed.
+Print Assumptions C18arr_remove_refuted.
+
+(* ---- non-vacuity: a concrete history of the proved alphabet ------------------------------------
+   hash = k mod 3, so keys 0 and 3 have the same hash value and share a bucket in every
+   table.  Three insertions (the second one leaves the inline slot: table 1 -> 7), lookup by
+   id, resize(5), shrink() to 3 buckets, a fourth insertion (3 -> 7 again), lookup by key,
+   clear, re-insertion (ids restart at 1), size, and finally operator[] on an id that is not
+   live: undefined behaviour in model and specification alike. *)
+Example C18arr_model_history :
+  run (fun k => k mod 3) 4
+      [OAdd 0; OAdd 3; OAdd 1; OAt 2; OResize 5; OShrink; OAdd 2; OFind 3; OClear; OAdd 3; OSize; OAt 2] =
+  [Obs (RIdx 1) 1 [(1, Some 0); (0, None); (0, None); (0, None)];
+   Obs (RIdx 2) 2 [(1, Some 0); (0, None); (0, None); (2, Some 3)];
+   Obs (RIdx 3) 3 [(1, Some 0); (3, Some 1); (0, None); (2, Some 3)];
+   Obs (RKey 3) 3 [(1, Some 0); (3, Some 1); (0, None); (2, Some 3)];
+   Obs RUnit 3 [(1, Some 0); (3, Some 1); (0, None); (2, Some 3)];
+   Obs RUnit 3 [(1, Some 0); (3, Some 1); (0, None); (2, Some 3)];
+   Obs (RIdx 4) 4 [(1, Some 0); (3, Some 1); (4, Some 2); (2, Some 3)];
+   Obs (RIdx 2) 4 [(1, Some 0); (3, Some 1); (4, Some 2); (2, Some 3)];
+   Obs RUnit 0 [(0, None); (0, None); (0, None); (0, None)];
+   Obs (RIdx 1) 1 [(0, None); (0, None); (0, None); (1, Some 3)];
+   Obs (RNum 1) 1 [(0, None); (0, None); (0, None); (1, Some 3)];
+   OUndef].
+Proof. vm_compute. reflexivity. Qed.
+
+(* allocated() along the same history: 1 -> 7 on the second insertion, resize(5), shrink() to
+   the element count, 7 again, back to the inline slot after clear() *)
+Example C18arr_model_history_allocated :
+  run_tlen (fun k => k mod 3)
+      [OAdd 0; OAdd 3; OAdd 1; OAt 2; OResize 5; OShrink; OAdd 2; OFind 3; OClear; OAdd 3; OSize] =
+  [1; 7; 7; 7; 5; 3; 7; 7; 1; 1; 1].
+Proof. vm_compute. reflexivity. Qed.
+
+Example C18arr_spec_history :
+  spec_run 4
+      [OAdd 0; OAdd 3; OAdd 1; OAt 2; OResize 5; OShrink; OAdd 2; OFind 3; OClear; OAdd 3; OSize; OAt 2] =
+  [Obs (RIdx 1) 1 [(1, Some 0); (0, None); (0, None); (0, None)];
+   Obs (RIdx 2) 2 [(1, Some 0); (0, None); (0, None); (2, Some 3)];
+   Obs (RIdx 3) 3 [(1, Some 0); (3, Some 1); (0, None); (2, Some 3)];
+   Obs (RKey 3) 3 [(1, Some 0); (3, Some 1); (0, None); (2, Some 3)];
+   Obs RUnit 3 [(1, Some 0); (3, Some 1); (0, None); (2, Some 3)];
+   Obs RUnit 3 [(1, Some 0); (3, Some 1); (0, None); (2, Some 3)];
+   Obs (RIdx 4) 4 [(1, Some 0); (3, Some 1); (4, Some 2); (2, Some 3)];
+   Obs (RIdx 2) 4 [(1, Some 0); (3, Some 1); (4, Some 2); (2, Some 3)];
+   Obs RUnit 0 [(0, None); (0, None); (0, None); (0, None)];
+   Obs (RIdx 1) 1 [(0, None); (0, None); (0, None); (1, Some 3)];
+   Obs (RNum 1) 1 [(0, None); (0, None); (0, None); (1, Some 3)];
+   OUndef].
+Proof. vm_compute. reflexivity. Qed.
+
+(* ---- the remove() witnesses (all confirmed on the real code by harness/C18arr.cpp) -------------
+   hash = k mod 2 in all of them. *)
+
+(* W0: while tableLength = 1, table[0], reverseTable[1] and defaultEntry are one cell.  remove's
+   first loop nulls reverseTable[1] and thereby the only chain head: the key is never
+   unlinked, remove() returns false, size() stays 1, the entry is leaked.  The specification
+   answers true / 0. *)
+Example C18arr_remove_witness_inline_slot :
+  run (fun k => k mod 2) 4 [OAdd 0; ORemove 0; OSize; OFind 0] =
+  [Obs (RIdx 1) 1 [(1, Some 0); (0, None); (0, None); (0, None)];
+   Obs (RBool false) 1 [(0, None); (0, None); (0, None); (0, None)];
+   Obs (RNum 1) 1 [(0, None); (0, None); (0, None); (0, None)];
+   Obs (RIdx 0) 1 [(0, None); (0, None); (0, None); (0, None)]]
+  /\
+  spec_run 4 [OAdd 0; ORemove 0; OSize; OFind 0] =
+  [Obs (RIdx 1) 1 [(1, Some 0); (0, None); (0, None); (0, None)];
+   Obs (RBool true) 0 [(0, None); (0, None); (0, None); (0, None)];
+   Obs (RNum 0) 0 [(0, None); (0, None); (0, None); (0, None)];
+   Obs (RIdx 0) 0 [(0, None); (0, None); (0, None); (0, None)]].
+Proof. vm_compute. split; reflexivity. Qed.
+
+(* W1: remove does count--, the next insertion takes index = count = 2, which still belongs
+   to the live key 1: two live keys share id 2, operator[](2) now returns key 2, so the key
+   stored under the id of key 1 is no longer key 1. *)
+Example C18arr_remove_witness_id_reused :
+  run (fun k => k mod 2) 4 [OAdd 0; OAdd 1; ORemove 0; OAdd 2; OFind 1; OAt 2] =
+  [Obs (RIdx 1) 1 [(1, Some 0); (0, None); (0, None); (0, None)];
+   Obs (RIdx 2) 2 [(1, Some 0); (2, Some 1); (0, None); (0, None)];
+   Obs (RBool true) 1 [(0, None); (2, Some 1); (0, None); (0, None)];
+   Obs (RIdx 2) 2 [(0, None); (2, Some 2); (2, Some 2); (0, None)];
+   Obs (RIdx 2) 2 [(0, None); (2, Some 2); (2, Some 2); (0, None)];
+   Obs (RKey 2) 2 [(0, None); (2, Some 2); (2, Some 2); (0, None)]].
+Proof. vm_compute. reflexivity. Qed.
+
+(* W2: removing the entry that defaultEntry points to sets defaultEntry = prev = nullptr while
+   the table still holds key 1; the next insertion into the bucket of key 1 (key 3) takes
+   the "defaultEntry == nullptr" branch, sets next = nullptr and drops key 1's chain:
+   key 1 was never removed but is no longer found (and its entry is leaked). *)
+Example C18arr_remove_witness_chain_dropped :
+  run (fun k => k mod 2) 4 [OAdd 0; OAdd 1; ORemove 0; OAdd 3; OFind 1] =
+  [Obs (RIdx 1) 1 [(1, Some 0); (0, None); (0, None); (0, None)];
+   Obs (RIdx 2) 2 [(1, Some 0); (2, Some 1); (0, None); (0, None)];
+   Obs (RBool true) 1 [(0, None); (2, Some 1); (0, None); (0, None)];
+   Obs (RIdx 2) 2 [(0, None); (0, None); (0, None); (2, Some 3)];
+   Obs (RIdx 0) 2 [(0, None); (0, None); (0, None); (2, Some 3)]]
+  /\
+  spec_run 4 [OAdd 0; OAdd 1; ORemove 0; OAdd 3; OFind 1] =
+  [Obs (RIdx 1) 1 [(1, Some 0); (0, None); (0, None); (0, None)];
+   Obs (RIdx 2) 2 [(1, Some 0); (2, Some 1); (0, None); (0, None)];
+   Obs (RBool true) 1 [(0, None); (2, Some 1); (0, None); (0, None)];
+   Obs (RIdx 3) 2 [(0, None); (2, Some 1); (0, None); (3, Some 3)];
+   Obs (RIdx 2) 2 [(0, None); (2, Some 1); (0, None); (3, Some 3)]].
+Proof. vm_compute. split; reflexivity. Qed.
+
+(* W3: shrink() with one element allocates a table of length 1 outside the object; clear()
+   resets reverseTable only when tableLength > 1, so reverseTable[1] keeps pointing at the
+   deleted entry; remove's first loop then reads that entry's key: use after free
+   (AddressSanitizer: heap-use-after-free in the real code).  The specification: false. *)
+Example C18arr_remove_witness_use_after_free :
+  run (fun k => k mod 2) 4 [OAdd 0; OShrink; OClear; ORemove 5] =
+  [Obs (RIdx 1) 1 [(1, Some 0); (0, None); (0, None); (0, None)];
+   Obs RUnit 1 [(1, Some 0); (0, None); (0, None); (0, None)];
+   Obs RUnit 0 [(0, None); (0, None); (0, None); (0, None)];
+   OUndef]
+  /\
+  spec_run 4 [OAdd 0; OShrink; OClear; ORemove 5] =
+  [Obs (RIdx 1) 1 [(1, Some 0); (0, None); (0, None); (0, None)];
+   Obs RUnit 1 [(1, Some 0); (0, None); (0, None); (0, None)];
+   Obs RUnit 0 [(0, None); (0, None); (0, None); (0, None)];
+   Obs (RBool false) 0 [(0, None); (0, None); (0, None); (0, None)]].
+Proof. vm_compute. split; reflexivity. Qed.
